@@ -51,7 +51,8 @@ RunSeen(cmds, i, st, got) == IF i > Len(cmds) THEN [rs |-> <<>>, s |-> st]
                          IN [rs |-> <<r.r>> \o rest.rs, s |-> rest.s]
 RECURSIVE RunSeq(_, _, _)
 RunSeq(cmds, i, st) == IF i > Len(cmds) THEN [rs |-> <<>>, s |-> st]
-                    ELSE LET r == Do(cmds[i], st, 0)
+                    ELSE LET r == IF cmds[i].op = "UNWATCH" THEN [r |-> OK, s |-> st]     \* queued like any command; EXEC has checked the watches before
+                                  ELSE Do(cmds[i], st, 0)
                              rest == RunSeq(cmds, i + 1, r.s)
                          IN [rs |-> <<r.r>> \o rest.rs, s |-> rest.s]
 
@@ -121,11 +122,13 @@ QUEUED == RSimple(<<81, 85, 69, 85, 69, 68>>)
 EXECABORT == RErr(<<69, 88, 69, 67, 65, 66, 79, 82, 84>>)
 
 (* one step of the model: [st, cx (A's connection state), r (expected reply), alt (acceptable as-built reply or "none")] *)
-Cx0 == [inTx |-> FALSE, q |-> <<>>, dirty |-> FALSE, w |-> [k \in {} |-> NoEntry]]
-WatchChanged(st, cx) == \E k \in DOMAIN cx.w : ~SameEntry(cx.w[k], Snap(st, k))
+(* w[k]: the snapshots taken by the WATCH commands that named k (one per WATCH: a later WATCH of the same key adds an obligation, it *)
+(* does not replace the earlier one - "differs from its value when WATCH was issued" holds for every WATCH that was issued)         *)
+Cx0 == [inTx |-> FALSE, q |-> <<>>, dirty |-> FALSE, w |-> [k \in {} |-> {}]]
+WatchChanged(st, cx) == \E k \in DOMAIN cx.w : \E e \in cx.w[k] : ~SameEntry(e, Snap(st, k))
 (* as built the snapshot is the reply of GET: keys that are not strings look alike before and after *)
 GetView(e) == IF e.t = "string" THEN e ELSE IF e.t = "none" THEN e ELSE [t |-> "wrongtype", v |-> <<>>, exp |-> -1]
-WatchChangedAsBuilt(st, cx) == \E k \in DOMAIN cx.w : ~SameEntry(GetView(cx.w[k]), GetView(Snap(st, k)))
+WatchChangedAsBuilt(st, cx) == \E k \in DOMAIN cx.w : \E e \in cx.w[k] : ~SameEntry(GetView(e), GetView(Snap(st, k)))
 
 StepA(st, cx, c) ==
   IF c.op = "MULTI" THEN
@@ -134,8 +137,10 @@ StepA(st, cx, c) ==
        (IF cx.inTx THEN [st |-> st, cx |-> Cx0, r |-> OK] ELSE [st |-> st, cx |-> cx, r |-> ERR])
   ELSE IF c.op = "WATCH" THEN
        (IF cx.inTx THEN [st |-> st, cx |-> cx, r |-> ERR]
-        ELSE [st |-> st, cx |-> [cx EXCEPT !.w = [k \in DOMAIN cx.w \cup RangeQ(c.ks) |-> IF k \in DOMAIN cx.w THEN cx.w[k] ELSE Snap(st, k)]], r |-> OK])
-  ELSE IF c.op = "UNWATCH" THEN [st |-> st, cx |-> [cx EXCEPT !.w = [k \in {} |-> NoEntry]], r |-> OK]
+        ELSE [st |-> st, cx |-> [cx EXCEPT !.w = [k \in DOMAIN cx.w \cup RangeQ(c.ks) |->
+                                                     (IF k \in DOMAIN cx.w THEN cx.w[k] ELSE {}) \cup (IF k \in RangeQ(c.ks) THEN {Snap(st, k)} ELSE {})]], r |-> OK])
+  ELSE IF c.op = "UNWATCH" /\ ~cx.inTx THEN [st |-> st, cx |-> [cx EXCEPT !.w = [k \in {} |-> {}]], r |-> OK]
+       \* (between MULTI and EXEC UNWATCH is queued like any other command: no result, no effect until EXEC)
   ELSE IF c.op = "EXEC" THEN
        (IF ~cx.inTx THEN [st |-> st, cx |-> cx, r |-> ERR]
         ELSE IF cx.dirty THEN [st |-> st, cx |-> Cx0, r |-> EXECABORT]
